@@ -258,6 +258,35 @@ pub fn run(rep: &mut Report, tier: &str, seed: u64) {
         if rep.samples.len() < 2 {
             rep.sample(json!({"tsg": text, "sources": sources.iter().map(|s| s.src.clone()).collect::<Vec<_>>()}));
         }
+        // (2b) the same loaded file executed for callers with DIFFERENT globals: everything supplied, then the globals that
+        // have a default omitted, then everything again — each run must equal the same run on a freshly loaded file
+        {
+            let defaulted: Vec<String> = text.lines().filter_map(|l| l.strip_prefix("global ")).filter(|l| l.contains(" = ")).map(|l| l.split(|c: char| !(c.is_alphanumeric() || c == '_')).next().unwrap_or("").to_string()).filter(|n| !n.is_empty()).collect();
+            if !defaulted.is_empty() {
+                let mut g_all = globals.clone();
+                for d in &defaulted {
+                    if !g_all.iter().any(|(k, _)| k == d) {
+                        g_all.push((d.clone(), tree_sitter_graph::graph::Value::String("supplied".into())));
+                    }
+                }
+                let g_less: Vec<_> = globals.iter().filter(|(k, _)| !defaulted.contains(k)).cloned().collect();
+                let run_g = |f: &tree_sitter_graph::ast::File, gl: &Vec<(String, tree_sitter_graph::graph::Value)>, lazy: bool| -> String {
+                    let cfg = RunCfg { lazy, globals: gl.clone(), outer_globals: vec![], debug: None, cancel_at: None };
+                    let ir = run_impl(f, &sources[0].tree, &sources[0].src, &infos[0], &cfg);
+                    format!("{}|{}", ir.outcome.to_text(), ir.graph.map(|g| g.to_text()).unwrap_or_default())
+                };
+                for lazy in [false, true] {
+                    let reused: Vec<String> = [&g_all, &g_less, &g_all].iter().map(|gl| run_g(&file, gl, lazy)).collect();
+                    let fresh2: Vec<String> = [&g_all, &g_less, &g_all].iter().map(|gl| match load(&text) { Ok(Ok(f2)) => run_g(&f2, gl, lazy), _ => "not-loadable".to_string() }).collect();
+                    if reused != fresh2 {
+                        rep.fail("direct", "C12 a loaded file executed for callers with different globals gives a different result than a freshly loaded one", true,
+                            json!({"tsg": text, "source": sources[0].src, "lazy": lazy, "defaulted_globals": defaulted}));
+                    } else {
+                        rep.count("reuse-with-different-globals-checked");
+                    }
+                }
+            }
+        }
         if isolated.iter().any(|t| t.ends_with("globals-changed=true")) {
             rep.fail("direct", "C12 execution changed the caller's globals", true, json!({"tsg": text}));
         }
